@@ -2,6 +2,7 @@
 'constant' interpolation - is proved; the numerical behaviour of numpy.interp / CubicSpline / splrep+BSpline /
 numpy.random.normal is ASSUMED (library contracts in pyvc/libcalls.py)."""
 from pyvc.spec import *
+import contracts._num_rt as NRT      # run-time-only readings used by `assumed=` (bounded) clauses
 
 P = 'traffic_weaver.process.'
 PWC = P + '_piecewise_constant_interpolate'
@@ -88,7 +89,9 @@ def interp_linear(x, y, new_x, method, kwargs, result):
 
 # --------------------------------------------------------------------------- spline_smooth
 
-contract(SMOOTH, params=dict(x=Seq(Real), y=Seq(Real), s=Opt(Real)), returns=Obj('ext:spline'))
+class_shape('ext:spline', fn=Fn(1), src_x=Seq(Real), src_y=Seq(Real), s=Real)
+
+contract(SMOOTH, params=dict(x=Seq(Real), y=Seq(Real), s=Opt(Real)), returns=Obj('ext:spline'), generator='gen_smooth')
 
 
 @requires(SMOOTH)
@@ -111,6 +114,12 @@ def smooth_forwards(x, y, s, result):
 def smooth_interpolates_for_zero(x, y, s, result):
     """with s == 0 the spline passes through every sample (assumed FITPACK contract)"""
     return implies(s is not None and s == 0, forall(range(len(x)), lambda k: result.fn(x[k]) == y[k]))
+
+
+@ensures(SMOOTH, assumed='bounded: run-time monitoring on generated inputs only (FITPACK is outside the verifier)')
+def smooth_rt_condition(x, y, s, result):
+    """C16 read numerically: summed squared deviation at the samples <= s (0.1 % solver tolerance), identity for s = 0"""
+    return NRT.smoothing_ok(x, y, s, result)
 
 
 # ------------------------------------------------------------------------------ noise_gauss
@@ -152,3 +161,26 @@ def noise_scale(a, snr, snr_in_db, std, result):
             ((len(normal_scale(0)) == len(a)
               and forall(range(len(a)), lambda i: eq(normal_scale(0)[i], noise_std(a, snr[i], snr_in_db)))) if is_seq(snr)
              else eq(normal_scale(0), noise_std(a, snr, snr_in_db))))
+
+
+
+# ------------------------------------------------------------------ run-time generators (bounded stand-in only)
+
+def gen_smooth(rnd):
+    import numpy as np
+    n = rnd.randint(5, 16)
+    cur = float(rnd.randint(-4, 4)) / 2
+    xs = []
+    uniform = rnd.random() < 0.4
+    for _ in range(n):
+        xs.append(cur)
+        cur += 1.0 if uniform else rnd.choice([0.5, 1.0, 1.5, 2.0, 0.25, 3.0])
+    kind = rnd.random()
+    if kind < 0.2:
+        ys = [2.0 * v - 1.0 for v in xs]                                  # affine data
+    elif kind < 0.6:
+        ys = [float(rnd.randint(-6, 6)) / 2 for _ in range(n)]            # noisy
+    else:
+        ys = [np.sin(v) * 3 + rnd.uniform(-0.5, 0.5) for v in xs]         # smooth + noise
+    s = rnd.choice([None, 0, 0.0, 1e-4, 1e-3, 5e-4, 0.01, 0.5, 2.0, 10.0, 100.0])
+    return dict(x=np.array(xs, dtype=float), y=np.array(ys, dtype=float), s=s)
